@@ -25,7 +25,7 @@ UNSUPPORTED_PAT = re.compile(
 
 def run(gen_path, lines, rlimit=RLIMIT_DEFAULT, seed=None, extra=None, timeout=900):
     cmd = ["verus", gen_path, "--error-format=json", "--output-json", "--time", "--multiple-errors", "8",
-           "--rlimit", str(rlimit), "--num-threads", "8"]
+           "--rlimit", str(rlimit), "--num-threads", "16"]
     if seed is not None:
         cmd += ["--smt-option", f"smt.random_seed={int(seed) % 100000}"]
     if extra:
